@@ -473,6 +473,10 @@ func TestVerifReplay(t *testing.T) {
 			if v.Kind == "assert" && strings.Contains(l, strconv.Quote(v.Label)) {
 				return 1, l
 			}
+			if v.Kind == "assert" && !strings.Contains(l, "failed=[]") {
+				// the native run fails other assertions of the same harness (the first failure changes what follows)
+				return 1, "a different assertion of the harness fails natively: " + l
+			}
 			if v.Kind == "panic" || v.Kind == "assert" {
 				return 0, "native run: " + l
 			}
